@@ -103,7 +103,7 @@ fn test_values(kind: &str, f: &Value) -> Vec<FV> {
         },
         "text" => match (kind, fname(f)) {
             ("VER", "Version") => vec![FV::Text(b"0.7F".to_vec()), FV::Text(b"0.6U12".to_vec())],
-            (_, "Track") => vec![FV::Text(b"BL1".to_vec()), FV::Text(b"AS7R".to_vec()), FV::Text(b"FE2X".to_vec())],
+            (_, "Track") => crate::pkt::all_track_codes().iter().map(|c| FV::Text(c.as_bytes().to_vec())).collect(),
             _ => vec![FV::Text(b"x".to_vec()), FV::Text((0..w).map(|i| b'A' + (i % 26) as u8).collect()), FV::Text(vec![])],
         },
         // … and mod ids on every side of the "three alphanumerics + NUL" boundary: one non-alphanumeric byte in each
